@@ -99,6 +99,17 @@ Definition unmerged_zero (files : list file) : list prop :=
   | [f] => filter (fun p => is_generic (fst p) && (snd p =? 0)) f
   | _ => []
   end.
+(* One more trait of the unmerged copy, observed on GNU ld 2.40 and NOT modelled: when the x86 parser removed a
+   zero-valued x86 AND/OR-class property of that single object, the generic entries in front of it vanish from the output
+   as well (even non-zero ones).  gnu_note is claimed to be GNU ld's note only where unmerged_irregular is false. *)
+Definition x86_zero (p : prop) : bool :=
+  (snd p =? 0) && negb (is_generic (fst p)) &&
+  match class_of (fst p) with Some CAnd | Some COr => true | _ => false end.
+Definition unmerged_irregular (files : list file) : bool :=
+  match files with
+  | [f] => existsb (fun p => is_generic (fst p)) f && existsb x86_zero f
+  | _ => false
+  end.
 Fixpoint insp (p : prop) (l : list prop) : list prop :=
   match l with
   | [] => [p]
